@@ -145,6 +145,7 @@ static dec_fn dfn;
 static char dkind[16];
 static int dm;
 static int guards_good = 1;
+static int last_nobuf;
 
 static void reg_reserve(size_t n)
 {
@@ -243,6 +244,7 @@ static struct callres do_call(int seg, unsigned mis, int peek)
 	if (cr.ret < 0) cr.cls = (cr.ret == MPT_ERROR(MissingBuffer)) ? "nobuf" : "err";
 	else cr.cls = (dst_state.data.msg >= 0 && !peek) ? "msg" : "more";
 	if (!cr.guards) guards_good = 0;
+	last_nobuf = !strcmp(cr.cls, "nobuf");
 	return cr;
 }
 static void emit_call(struct cmd *c, const struct callres *cr)
@@ -289,7 +291,7 @@ static void run_stream(const uint8_t *data, size_t n, size_t chunk, int seg, uns
                        size_t grant, int maxres)
 {
 	size_t fed = 0;
-	int nres = 0, idle = 0, calls = 0;
+	int nres = 0, idle = 0, calls = 0, nobuf = 0;
 	long whi_bad = 0;
 	const char *last = "more";
 
@@ -309,6 +311,7 @@ static void run_stream(const uint8_t *data, size_t n, size_t chunk, int seg, uns
 		cr = do_call(seg, mis, 0);
 		++calls;
 		last = cr.cls;
+		if (strcmp(cr.cls, "nobuf")) nobuf = 0;
 		if (cr.chg_hi >= 0 && (size_t) cr.chg_hi >= dst_state.curr) whi_bad++;
 		if (!strcmp(cr.cls, "msg")) {
 			size_t mp = dst_state.data.pos, ml = (size_t) dst_state.data.msg;
@@ -325,9 +328,13 @@ static void run_stream(const uint8_t *data, size_t n, size_t chunk, int seg, uns
 			j_close();
 			break;
 		} else if (!strcmp(cr.cls, "nobuf")) {
-			reg_insert(dst_state.curr, grant);
-			dst_state.curr += grant;
-			if (calls > 20000) break;
+			/* the caller enlarges its grant while the decoder keeps asking */
+			size_t g = grant << (nobuf < 6 ? nobuf : 6);
+			if (dst_state.curr > reg_len) break;
+			reg_insert(dst_state.curr, g);
+			dst_state.curr += g;
+			if (++nobuf > 64) break;
+			continue;
 		} else {
 			idle = 1;   /* wants more input */
 		}
@@ -349,7 +356,7 @@ static void run_queue(const uint8_t *data, size_t n, size_t chunk, size_t grant,
 {
 	MPT_STRUCT(decode_queue) dq = MPT_DECODE_QUEUE_INIT;
 	size_t fed = 0;
-	int nres = 0, calls = 0, idle = 1;
+	int nres = 0, calls = 0, idle = 1, nobuf = 0;
 	const char *last = "more";
 
 	dq._dec = dfn;
@@ -368,6 +375,7 @@ static void run_queue(const uint8_t *data, size_t n, size_t chunk, size_t grant,
 		(void) mpt_queue_peek(&dq, 0, 0);
 		r = mpt_queue_recv(&dq);
 		++calls;
+		if (r != MPT_ERROR(MissingBuffer)) nobuf = 0;
 		if (r > 0) {
 			size_t mp = dq._state.data.pos, ml = (size_t) dq._state.data.msg;
 			uint8_t *tmp = (uint8_t *) calloc(ml + 1, 1);
@@ -379,12 +387,14 @@ static void run_queue(const uint8_t *data, size_t n, size_t chunk, size_t grant,
 			free(tmp);
 			last = "msg";
 			if (++nres >= maxres) break;
-		} else if (r == 0 || r == MPT_ERROR(MissingData)) {
+		} else if (r == 0 || (r == MPT_ERROR(MissingData) && !dq.data.len)) {
 			last = "more";
 			idle = 1;
 		} else if (r == MPT_ERROR(MissingBuffer)) {
 			last = "nobuf";
-			mpt_queue_prepare(&dq.data, (dq.data.max - dq.data.len) + grant);
+			mpt_queue_prepare(&dq.data, (dq.data.max - dq.data.len) + (grant << (nobuf < 6 ? nobuf : 6)));
+			if (++nobuf > 64) break;
+			continue;
 		} else {
 			j_item_obj_open();
 			j_str("r", "err");
@@ -621,6 +631,7 @@ static void act_term(struct cmd *c, int fin)
 {
 	ssize_t r = 0;
 	int drained = 0, spins = 0;
+	int spin_max = 64 + 4 * (int) emsg_len;   /* far more room than any framing needs */
 	const char *cls = "ok";
 	if (!efinished) {
 		/* everything must have been accepted before a frame can be finished */
@@ -631,14 +642,14 @@ static void act_term(struct cmd *c, int fin)
 				e_room();
 			}
 			else if (r < 0) break;
-			if (++spins > 100000) { cls = "spin"; break; }
+			if (++spins > spin_max) { cls = "spin"; break; }
 		}
 		if (eacc < emsg_len) {
-			cls = (r < 0 && r != MPT_ERROR(MissingBuffer)) ? "err" : (spins > 100000 ? "spin" : "todo");
+			cls = (r < 0 && r != MPT_ERROR(MissingBuffer)) ? "err" : (spins > spin_max ? "spin" : "todo");
 		} else {
 			while (1) {
 				r = e_term();
-				if (r == MPT_ERROR(MissingBuffer) && fin && strcmp(epath, "array") && ++spins < 100000) {
+				if (r == MPT_ERROR(MissingBuffer) && fin && strcmp(epath, "array") && ++spins < spin_max) {
 					e_room();
 					continue;
 				}
@@ -689,9 +700,12 @@ static void step_inner(struct cmd *c)
 	else if (!strcmp(a, "grant")) {
 		size_t k = (size_t) drv_uint(c, "k", 1);
 		size_t at = dst_state.curr <= reg_len ? dst_state.curr : reg_len;
-		reg_insert(at, k);
-		dst_state.curr += k;
-		drv_begin(c); j_str("ret", "ok"); j_int("curr", (long long) dst_state.curr);
+		int doit = !drv_int(c, "cond", 0) || last_nobuf;   /* cond=1: only as answer to MissingBuffer */
+		if (doit) {
+			reg_insert(at, k);
+			dst_state.curr += k;
+		}
+		drv_begin(c); j_str("ret", doit ? "ok" : "skip"); j_int("curr", (long long) dst_state.curr);
 		j_int("len", (long long) reg_len); drv_dbg(); drv_end();
 	}
 	else if (!strcmp(a, "run")) {
